@@ -25,7 +25,7 @@ T = math.pi / 6
 
 
 def cases(tier, seed):
-    n = 16 if tier == 'quick' else 160
+    n = 32 if tier == 'quick' else 160
     return [{'seed': seed * 100003 + i, 'part': 'dirs', 'n': 12000} for i in range(n)] + \
         [{'seed': seed * 100003 + i, 'part': 'poses', 'n': 1500} for i in range(n)] + \
         [{'seed': seed * 100003 + i, 'part': 'solver', 'n': 60} for i in range(n)] + [{'seed': 0, 'part': 'grid'}]
